@@ -20,6 +20,9 @@ CLAIMS = {
  "C06": ("The lexer is transcribed function by function into Gallina; C06_next_progress proves for EVERY lexer state with input left (arbitrary bytes: invalid UTF-8, NUL, unterminated constructs) that one call of Next consumes at least one byte, and C06_lex_total that tokenising any input terminates with EOF within |input|+1 tokens. Every run compares the model's token stream (types, values, positions) with the implementation's on damaged journals, fragment soups, raw bytes and long repetitions, checks coverage of the observed stream, and runs every handler at sampled positions under recover() and a per-request time budget.",
          "PARTIAL for the crash/time clause: panics, hangs and wall time of parser, analyzer, formatter and handlers are searched by the harness, not proved (runtime behaviour); proved part: tokenisation progress/totality on the transcribed lexer. Known finding huge_exponent.",
          "Coq proof of lexer progress/totality over all byte strings + token-stream correspondence + crash/time search on every handler", "5 C06"),
+ "C07": ("On the transcribed parser: for every token list the recovery step (skipToNextLine) stops right after the first Newline token and only drops a prefix, and the lexer makes progress on arbitrary damage. The containment statement is decided per run: journals from G with one entry damaged in eight ways (random bytes, truncation, deleted / duplicated / reordered lines, unbalanced quotes or brackets, stray operators, junk) are parsed by the real parser, and every other entry must keep its content and (shifted) line while syntax errors stay on the damaged lines; the parser model must equal the real parser on the damaged text (full AST).",
+         "PARTIAL: the universal containment theorem is not proved; proved parts are the recovery lemmas and lexer progress. Trusted: transcription (full-AST tie), G generator in Go.",
+         "Coq recovery lemmas on the transcribed parser + full-AST correspondence on damaged texts + containment oracle", "5 C07"),
  "C10": ("Include loader modelled at include-graph level (visited set, cache, both limits); the exact-cycle clause is refuted by three machine-checked witnesses (diamond, double include, count-based depth limit: recorded known findings); root-level verdicts proved for all file systems. Every run compares model, a stack-based reference traversal and the real loader on all 512 digraphs on 3 files plus random directories using every include form (relative, ./, absolute, ~/, dot-dot, glob).",
          "Trusted: Coq kernel+VM; graph-level abstraction (path and glob resolution run in the real code, results given to the model); termination/soundness of the traversal for all graphs is checked by the tie and oracle, not yet proved (ceiling).",
          "Coq refutation theorems + reference-traversal oracle + exhaustive small-graph correspondence", "5 C10"),
